@@ -277,6 +277,17 @@ fn main() {
                 scenarios.push(s);
             }
         }
+        // bursts: 2, 3 or 4 consecutive I/O calls hit by the same fault (a device that stays bad for a moment; a retry
+        // loop with a bounded number of attempts gives up exactly here)
+        for k in 0..calls {
+            for f in kinds {
+                for len in 2..=4usize {
+                    let mut s = b.clone();
+                    s.faults = (k..k + len).map(|i| (i, f)).collect();
+                    scenarios.push(s);
+                }
+            }
+        }
         if thorough && b.writers.len() == 2 {
             for k1 in 0..calls {
                 for k2 in k1 + 1..calls {
@@ -320,7 +331,7 @@ fn main() {
     let coverage = json!({
         "evaluations": execs,
         "distinct_nontrivial": distinct,
-        "rule": "scenario = (group_commit_max_entries in {1,2,8}) x (rotation after every entry / every 2nd / never) x (writer tasks with 1-2 sequential write_durable calls; also two writers racing with a graceful shutdown request) x fault plan (none; every single I/O-call index x {fail, partial append, disk full}; thorough: all pairs for 2 writers); for each scenario every poll-level schedule of writers, the real WalActor and <=2 clock advances of group_commit_max_wait within the delay bound; an execution is non-trivial/distinct when its (I/O log, results, ack instants) differs from earlier ones of the scenario - for each such execution EVERY crash instant (I/O-log prefix, files cut to last successful sync) is recovered with the real WalRotator",
+        "rule": "scenario = (group_commit_max_entries in {1,2,8}) x (rotation after every entry / every 2nd / never) x (writer tasks with 1-2 sequential write_durable calls; also two writers racing with a graceful shutdown request) x fault plan (none; every single I/O-call index x {fail, partial append, disk full}; bursts of 2-4 consecutive calls hit by the same fault; thorough: all pairs for 2 writers); for each scenario every poll-level schedule of writers, the real WalActor and <=2 clock advances of group_commit_max_wait within the delay bound; an execution is non-trivial/distinct when its (I/O log, results, ack instants) differs from earlier ones of the scenario - for each such execution EVERY crash instant (I/O-log prefix, files cut to last successful sync) is recovered with the real WalRotator",
         "scenarios": scenarios.len(),
         "schedules_executed": execs,
         "distinct_io_histories_crash_checked": distinct,
